@@ -291,7 +291,7 @@ PROPS = {
         "trusted_base": COMMON_TB + ["Expand/Expand.v: hand model of expander.go / schema_loader.go / resolver.go on JSON trees (base-path threading, parent stack, memo of circular refs, resolver roots, deref chains, rebasing, SkipSchemas/ContinueOnError/AbsoluteCircularRef, cache and loader log); abstractions: sub-schemas visited in JSON member order, `#/` refs into the live root read the original root (outputs on cyclic graphs compared through unfoldings)",
                                      "correspondence scope: every generated graph except those with schema ids and prefix-sibling documents (the areas of the open findings F9, F10, F10b), which are judged by the oracle only; multi-hop parameter/response/path-item chains and imported circular schemas are compared since the repairs of F7 and F8",
                                      "Codec/Codec.v (typed decoding of every resolved target) and Base/Url.v (normalizeURI, rebase)"],
-        "level_text": 'Coq theorems (Props/C08.v): strict mode turns an unresolvable schema reference into an error; continue mode leaves it verbatim (missing document/pointer) and returns no error; errors of the traversal always come from a child / a failed follow / a failed resolution / an unnormalisable URL (never invented), and a failing child stops the fold (never swallowed); NO SPURIOUS ERROR (Expand/ExpandComplete.v): when every reference of the graph is resolvable the schema expansion with fuel above the number of references returns a result from every consistent state; FOR THE WHOLE OF ExpandSpec (Expand/ExpandChain.v, ExpandSpecSim.v: C08_expand_spec_no_spurious_error): on a checked graph in which every schema reference and every hop of every parameter/response/path-item chain designates an object, ExpandSpec returns a document — not an error — from every consistent state, AbsoluteCircularRef on or off, for every fuel above the number of references and the length of the chains (discharged on a two-document specification for every state); F22 (ill-typed target emptied in continue mode) as a theorem about the transcribed behaviour.',
+        "level_text": 'Coq theorems (Props/C08.v): strict mode turns an unresolvable schema reference into an error; continue mode leaves it verbatim (missing document/pointer) and returns no error; errors of the traversal always come from a child / a failed follow / a failed resolution / an unnormalisable URL (never invented), and a failing child stops the fold (never swallowed); NO SPURIOUS ERROR (Expand/ExpandComplete.v): when every reference of the graph is resolvable the schema expansion with fuel above the number of references returns a result from every consistent state; FOR THE WHOLE OF ExpandSpec (Expand/ExpandChain.v, ExpandSpecSim.v: C08_expand_spec_no_spurious_error): on a checked graph in which every schema reference and every hop of every parameter/response/path-item chain designates an object, ExpandSpec returns a document — not an error — from every consistent state, AbsoluteCircularRef on or off, for every fuel above the number of references and the length of the chains (discharged on a two-document specification for every state); in continue mode the reference is left verbatim also when the target is ill-typed (the repaired defect F22: fix commit 2784181).',
         "level_note": 'Partial: the converse at document level (an unresolvable reference that HAS TO be followed yields an error) is proved per reference (esr_strict: the error of a failed resolution is passed on, never swallowed) and checked by the oracle for whole documents; ContinueOnError at the level of parameters/responses/path items is covered by correspondence + oracle.',
         "technique": "Coq proof about a hand-written executable model of the expander + differential run (exact on acyclic graphs, unfoldings on cyclic ones) + property oracle on the implementation",
         "assumptions": ["loader is a function of the URL during one call", "documents are in normal form (reference objects carry only $ref)"],
